@@ -10,8 +10,11 @@ Model/Selector.v evaluated by Coq on the Go answers; and the same four invariant
 independent Python oracle on the Go answers.
 
 Part A (content).  The same random attribute histories on one dataset are written through the public
-API under the default configuration and under none / immediate / lazy / incremental / smart / toggled
-configurations (harness c19cfg), closed, reopened, dumped.  Gate: per-operation results and dumps are
+API under the default configuration and under none / immediate / lazy / incremental / smart / toggled /
+run-time-enabled (EnableLazyRebalancing early in the session, directed) configurations (harness c19cfg),
+closed, reopened, dumped; part of the histories contain session boundaries (Close + OpenForWrite with the
+configuration's WriteOptions + OpenDataset: cached-header attribute paths).  Coq side: Props/C19.v
+(record-list model) and Props/C19Compose.v (composed byte-level model, every history x configuration list x wiring).  Gate: per-operation results and dumps are
 identical across configurations and equal a Python dict (last write wins, delete removes).  The three
 B-tree delete entry points the configuration selects between are compared record by record
 (harness c19del) against "remove the first record with an equal hash".
@@ -364,6 +367,17 @@ def gen_history(rng):
     return ops
 
 
+def with_reopens(rng, ops):
+    """Session boundaries as part of the history (the same under every configuration): Close + OpenForWrite +
+    OpenDataset at 1-3 places; the calls after the first one go through the cached-header attribute paths and the
+    WriteOptions of the configuration are given again to OpenForWrite.  Added with Props/C19Compose.v (the model's
+    'every call loads both structures from the file' is what makes a session boundary invisible)."""
+    ops = list(ops)
+    for _ in range(rng.randrange(1, 4)):
+        ops.insert(rng.randrange(1, len(ops) + 1), dict(op="reopen"))
+    return ops
+
+
 def gen_big_history(rng):
     """One object with many dense attributes (the name index leaf stays above half full after a delete: the lazy
     delete path then defers its batch), a few deletes / upserts at the end.  Added after seeded change C19-b."""
@@ -395,8 +409,22 @@ def gen_configs(rng, nops):
     togs = ["disable", "enable", "enable_lazy", "disable_lazy", "enable_incr", "stop_incr", "rebalance_all", "force_batch", "rebalance_attr"]
     toggled = dict(rng.choice([dict(kind="default"), dict(kind="none"), lazy(), incr(), smart()]))
     toggles = [dict(at=rng.randrange(0, nops), action=rng.choice(togs)) for _ in range(rng.randrange(2, 9))]
+    # run-time enabling, directed (the random toggles above reach it only now and then): EnableLazyRebalancing early in
+    # the session (again after every session boundary would need the boundary's position: the random toggles do that),
+    # optionally EnableIncrementalRebalancing on top and the immediate flag switched off
+    early = lambda: rng.randrange(0, max(1, nops // 4))
+    runtime = [dict(at=early(), action="enable_lazy")]
+    if rng.random() < 0.5:
+        runtime.append(dict(at=runtime[0]["at"], action="enable_incr"))
+    if rng.random() < 0.5:
+        runtime.append(dict(at=early(), action="disable"))
+    if rng.random() < 0.3:
+        runtime.append(dict(at=rng.randrange(nops // 2, nops), action="disable_lazy"))
+        runtime.append(dict(at=rng.randrange(nops // 2, nops), action="enable_lazy"))
+    # created WITHOUT options; threshold / delay are what the harness passes to EnableLazyRebalancing (0 = DefaultLazyConfig's)
+    rt_cfg = dict(kind="default", threshold=rng.choice([0, 0.01, 0.05, 0.5, 1.0]), delay=rng.choice([0, NS, S, 3600 * S]))
     return [(dict(kind="default"), []), (dict(kind="none"), []), (dict(kind="immediate"), []), (lazy(), []), (incr(), []), (smart(), []),
-            (toggled, toggles)]
+            (toggled, toggles), (rt_cfg, runtime)]
 
 
 def dict_oracle(ops, impl_res=None):
@@ -406,6 +434,9 @@ def dict_oracle(ops, impl_res=None):
     everything else (ok/err of deletes, the content)."""
     d, res, refused = {}, [], 0
     for i, o in enumerate(ops):
+        if o["op"] == "reopen":
+            res.append("ok")
+            continue
         if o["op"] == "set":
             if impl_res is not None and i < len(impl_res) and impl_res[i] == "err":
                 res.append("err")
@@ -581,8 +612,14 @@ def run(ctx):
     os.makedirs(builddir, exist_ok=True)
     cfg_cases, meta = [], []
     nbig = 8 if quick else 60
-    for h in range(nhist + nbig):
-        ops = gen_history(rng) if h < nhist else gen_big_history(rng)
+    nreopen = 10 if quick else 150
+    for h in range(nhist + nbig + nreopen):
+        if h < nhist:
+            ops = gen_history(rng)
+        elif h < nhist + nbig:
+            ops = gen_big_history(rng)
+        else:
+            ops = with_reopens(rng, gen_history(rng) if (h - nhist - nbig) % 5 else gen_big_history(rng))
         for k, (cfg, toggles) in enumerate(gen_configs(rng, len(ops))):
             cfg_cases.append(dict(path=os.path.join(builddir, "h%d_%d_%d.h5" % (ctx.seed, h, k)), config=cfg, toggles=toggles, ops=ops))
             meta.append((h, k))
@@ -595,6 +632,7 @@ def run(ctx):
     by_hist = {}
     for (h, k), c, r in zip(meta, cfg_cases, cres):
         by_hist.setdefault(h, []).append((k, c, r))
+    rt_runs = sum(1 for r in cres if any(t == "enable_lazy:ok" for t in (r.get("toggles") or [])))
     for h, runs in by_hist.items():
         k0, c0, r0 = runs[0]
         ops = c0["ops"]
@@ -605,6 +643,8 @@ def run(ctx):
             refused_msgs.update(e.split(":", 1)[1][:60] for e in r0.get("errs", []) if ops[int(e.split(":", 1)[0])]["op"] == "set")
         live, mx, dd = set(), 0, False
         for o in ops:
+            if o["op"] == "reopen":
+                continue
             if o["op"] == "set":
                 live.add(o["name"])
             elif o["name"] in live:
@@ -619,7 +659,8 @@ def run(ctx):
             if obs != obs0:
                 cross_dis += 1
                 first = next((i for i, (a, b) in enumerate(zip(r.get("ops") or [], r0.get("ops") or [])) if a != b), None)
-                viol.append(dict(what="content after reopen (or a per-operation result) under configuration %s differs from the default configuration" % c["config"]["kind"],
+                viol.append(dict(what="content after reopen (or a per-operation result) under configuration %s%s differs from the default configuration"
+                                      % (c["config"]["kind"], " + run-time calls " + ",".join(sorted(set(t["action"] for t in c["toggles"]))) if c["toggles"] else ""),
                                  failing_input=dict(config=c["config"], toggles=c["toggles"], ops=ops), impl=r, impl_default=r0, first_differing_op=first))
                 break
         # dict oracle on the default run
@@ -713,7 +754,7 @@ def run(ctx):
                       mode_changes_sooner_than_period_after_a_held_decision=agg["pairwise"], distinct_situations=len(situations),
                       scripted_cases=sum(1 for c in cases if c["strategy"] == "script")),
         evaluate_pipeline=dict(cases=len(ecases), evaluations=evals, workload_types=wtypes),
-        content=dict(histories=nhist + nbig, large_object_histories=nbig, configurations_per_history=7, attribute_ops=attr_ops, histories_reaching_dense=dense_hist,
+        content=dict(histories=nhist + nbig + nreopen, large_object_histories=nbig, configurations_per_history=8, histories_with_session_boundaries=nreopen, runtime_enable_lazy_runs=rt_runs, attribute_ops=attr_ops, histories_reaching_dense=dense_hist,
                      histories_deleting_while_dense=dense_del_hist, cross_configuration_differences=cross_dis,
                      dict_oracle_disagreements=len(oracle_dis),
                      writes_refused_by_the_library_in_every_configuration=refused_sets, refusal_messages=sorted(refused_msgs)[:5]),
